@@ -53,6 +53,10 @@ def handleS3 (s2 : St) (h : Head) (f : Finish) : St :=
   | .upgrade proto r ops =>
     let s' := s2.emit r.status (printResp r.toResp r.pieces h.version h.headers false (some proto)) true
     { s' with out := s'.out ++ wopsBytes ops, flushed := wopsFlushed ops s'.out.length s'.flushed }
+  | .respondFail r failAfter =>
+    match printRespFailing r h.version h.headers h.method.isHead failAfter with
+    | some (bytes, ok) => s2.emit r.status (some bytes) ok
+    | none => s2.emit r.status none false
 
 theorem handleS1_ext (s : St) (h : Head) (fr : Framing) (a : Action) : St.Ext s (handleS1 s h fr a) := by
   unfold handleS1; split
@@ -65,12 +69,28 @@ theorem handleS3_ext (s2 : St) (h : Head) (f : Finish) : St.Ext s2 (handleS3 s2 
   | drop => exact St.Ext.emit ..
   | writer ops => exact St.Ext.write ..
   | upgrade proto r ops => exact St.Ext.trans (St.Ext.emit ..) (St.Ext.write ..)
+  | respondFail r n =>
+    show St.Ext s2 (match printRespFailing r h.version h.headers h.method.isHead n with
+      | some (bytes, ok) => s2.emit r.status (some bytes) ok
+      | none => s2.emit r.status none false)
+    split <;> exact St.Ext.emit ..
 
-/-- the delivered record and the read outcome computed by `handle`. -/
-def handleRead (a : Action) (body : Body) (bs : Bytes) (fin : EndState) : Bytes × Option ReadOut × Body × Bytes :=
+/-- the optional empty-buffer read at the start of `handle`: the reader state and stream the rest
+    of the handling sees, `none` if discarding the body blocked. -/
+def handleZR (a : Action) (body : Body) (bs : Bytes) (fin : EndState) : Option (Body × Bytes) :=
+  if a.asReaderCalls > 0 && a.zeroRead then zeroReadEffect body bs fin else some (body, bs)
+
+/-- the reads proper (after the optional empty-buffer read). -/
+def handleRead0 (a : Action) (body : Body) (bs : Bytes) (fin : EndState) : Bytes × Option ReadOut × Body × Bytes :=
   if a.asReaderCalls > 0 && a.readTotal > 0 then
     Body.readUpTo (a.readTotal + 1) body (max a.bufSize 1) a.readTotal bs fin
   else ([], none, body, bs)
+
+/-- the delivered record and the read outcome computed by `handle` (empty-buffer read included). -/
+def handleRead (a : Action) (body : Body) (bs : Bytes) (fin : EndState) : Bytes × Option ReadOut × Body × Bytes :=
+  match handleZR a body bs fin with
+  | some (b', bs') => handleRead0 a b' bs' fin
+  | none => ([], some .pending, body, bs)
 
 def readEndOf : Option ReadOut → ReadEnd
   | none => .none
@@ -92,13 +112,19 @@ theorem handle_eq (s : St) (h : Head) (fr : Framing) (last : Bool) (a : Action) 
         match Body.drain (rd.2.2.2.length + 2) rd.2.2.1 rd.2.2.2 fin with
         | some bs2 => (handleS3 s2 h a.fin, bs2, false)
         | none => (handleS3 s2 h a.fin, [], true) := by
-  unfold handle handleRead
-  generalize (if (decide (a.asReaderCalls > 0) && decide (a.readTotal > 0)) = true then
-        Body.readUpTo (a.readTotal + 1) body (max a.bufSize 1) a.readTotal bs fin
-      else ([], none, body, bs)) = rd
-  obtain ⟨got, rend, body1, bs1⟩ := rd
-  rcases rend with _ | (_ | _ | _ | _)
-  all_goals first | rfl | (cases a.fin <;> rfl)
+  unfold handle handleRead handleZR
+  generalize (if (decide (a.asReaderCalls > 0) && a.zeroRead) = true then zeroReadEffect body bs fin
+      else some (body, bs)) = zr
+  rcases zr with _ | ⟨b', bs'⟩
+  · rfl
+  · unfold handleRead0
+    simp only [Bool.false_eq_true, if_false]
+    generalize (if (decide (a.asReaderCalls > 0) && decide (a.readTotal > 0)) = true then
+          Body.readUpTo (a.readTotal + 1) b' (max a.bufSize 1) a.readTotal bs' fin
+        else ([], none, b', bs')) = rd
+    obtain ⟨got, rend, body1, bs1⟩ := rd
+    rcases rend with _ | (_ | _ | _ | _)
+    all_goals first | rfl | (cases a.fin <;> rfl)
 
 /-- the state `handle` returns extends the state it started from. -/
 theorem handle_ext (s : St) (h : Head) (fr : Framing) (last : Bool) (a : Action) (body : Body) (bs : Bytes)
@@ -189,6 +215,7 @@ theorem handleS1_statuses (s : St) (h : Head) (fr : Framing) (a : Action) :
 theorem handleS3_statuses (s2 : St) (h : Head) (f : Finish) :
     (handleS3 s2 h f).statuses = s2.statuses ++ Spec.finishStatus f := by
   cases f <;> simp [handleS3, Spec.finishStatus, St.emit]
+  split <;> rfl
 
 theorem handleS3_out (s2 : St) (h : Head) (f : Finish) (hfl : s2.flushed ≤ s2.out.length) :
     ∃ rest, (handleS3 s2 h f).out = s2.out ++ rest ∧ s2.flushed ≤ (handleS3 s2 h f).flushed := by
@@ -202,5 +229,12 @@ theorem handleS3_out (s2 : St) (h : Head) (f : Finish) (hfl : s2.flushed ≤ s2.
     simp only [handleS3]
     refine Nat.le_trans ?_ (wopsFlushed_ge ops _ _ (by simp [St.emit]))
     simp [St.emit]; omega
+  | respondFail r n =>
+    simp only [handleS3]
+    split
+    · rename_i bytes ok _
+      refine ⟨bytes, rfl, ?_⟩
+      cases ok <;> simp [St.emit]; omega
+    · exact ⟨[], by simp [St.emit], by simp [St.emit]⟩
 
 end TH
